@@ -154,6 +154,7 @@ package prometheus
 //@   requires validTCPCM(cm)
 //@   ensures cm.accessKey == accessKey
 //@   trace[C17,start-at-most-once] atmost 1 prometheus.(*tunnelTimeMetrics).startConnection
+//@   trace[C17,the-tunnel-of-a-new-association-is-started] each prometheus.toIPKey satisfies $res1 == nil ==> evcount("prometheus.(*tunnelTimeMetrics).startConnection") == 1
 //@   trace[C17,no-stop-at-auth] never prometheus.(*tunnelTimeMetrics).stopConnection
 
 //@ func (*tcpConnMetrics).AddClosed
@@ -208,6 +209,9 @@ package prometheus
 //@   trace[C16,removed-once] exactly 1 prometheus.Counter.Inc
 //@   trace[C17,stop-at-most-once] atmost 1 prometheus.(*tunnelTimeMetrics).stopConnection
 //@   trace[C17,no-start-at-remove] never prometheus.(*tunnelTimeMetrics).startConnection
+//@   trace[C17,the-tunnel-of-a-removed-association-is-stopped] each prometheus.toIPKey satisfies $res1 == nil ==> evcount("prometheus.(*tunnelTimeMetrics).stopConnection") == 1
+//@   trace[C17,stops-the-tunnel-it-started] each prometheus.toIPKey satisfies $arg0 == cm.clientAddr && $arg1 == cm.accessKey
+//@   trace[C17,one-key-lookup] exactly 1 prometheus.toIPKey
 
 //@ func (*udpServiceMetrics).addPacketFromClient
 //@   props C16 C18
